@@ -29,7 +29,11 @@ RULE_B = ("LARGE files (edge / vertex files around and above 1 MiB on disk: 30k-
           "of the case parameters; H = digest of what the rows say (rolling hash of (i, id, src, dst, distance bits) in row "
           "order = 'row i is edge i', the same for vertices with f32 coordinate bits, out / in edge lists of EVERY vertex "
           "in row order, sizes, first row whose id is not its index), I = the same digest computed from get_edge(0..n), "
-          "get_vertex(0..n), out_edges / in_edges of the loaded graph; a replay names the generated file parameters")
+          "get_vertex(0..n), out_edges / in_edges of the loaded graph; a replay names the generated file parameters. "
+          "Also LARGE per-edge tables (3000-77000 rows of varying width - 7, 62.50, 120.125 - so that the 8 KiB / 64 KiB "
+          "buffer fills of the readers fall inside rows; speed / grade / class through read_raw_file + decoders and "
+          "SpeedTraversalEngine::new, headings through from_csv; gzip and plain): H = row count + rolling hash of (i, value) "
+          "of the generated list, I = the same of the loaded table + the first row whose value differs")
 
 
 RULE_G = ("read-back API of the application: SearchAppGraphOps::{get_edge_origin, get_edge_destination, get_edge_distance, "
